@@ -106,7 +106,7 @@ def to_py(env, T, v, numeric_enums=False):
     raise ValueError(k)
 
 
-def from_py(env, T, p, numeric_enums=False):
+def from_py(env, T, p, numeric_enums=False, unk=False):
     """Python value returned by a decoder -> abstract value; BadShape if it is not
     a value of the type's Python shape at all."""
     T = base(env, T)
@@ -124,6 +124,8 @@ def from_py(env, T, p, numeric_enums=False):
             raise BadShape('INTEGER: %r' % (p,))
         return unbig(p)
     if k == 'ENUM':
+        if unk and p is None:
+            return '?unknown'       # decoder's marker for an unknown (newer-version) item
         if numeric_enums:
             for x in all_alts(T):
                 if x['v'] == p and not isinstance(p, bool):
@@ -168,19 +170,21 @@ def from_py(env, T, p, numeric_enums=False):
         out = {}
         for m in ms:
             if m['n'] in p:
-                out[m['n']] = {'p': True, 'v': from_py(env, m['t'], p[m['n']], numeric_enums)}
+                out[m['n']] = {'p': True, 'v': from_py(env, m['t'], p[m['n']], numeric_enums, unk)}
             else:
                 out[m['n']] = {'p': False, 'v': 'NULL'}
         return out
     if k == 'CHOICE':
+        if unk and (p is None or (isinstance(p, tuple) and len(p) == 2 and p[0] is None)):
+            return {'a': '?unknown', 'v': 'NULL'}   # unknown (newer-version) alternative
         if not (isinstance(p, tuple) and len(p) == 2 and isinstance(p[0], str)):
             raise BadShape('CHOICE: %r' % (p,))
         for a in all_alts(T):
             if a['n'] == p[0]:
-                return {'a': p[0], 'v': from_py(env, a['t'], p[1], numeric_enums)}
+                return {'a': p[0], 'v': from_py(env, a['t'], p[1], numeric_enums, unk)}
         raise BadShape('CHOICE: unknown alternative %r' % (p[0],))
     if k in ('SEQOF', 'SETOF'):
         if not isinstance(p, list):
             raise BadShape('SEQUENCE OF: %r' % (p,))
-        return [from_py(env, T['e'], x, numeric_enums) for x in p]
+        return [from_py(env, T['e'], x, numeric_enums, unk) for x in p]
     raise ValueError(k)
